@@ -3,6 +3,7 @@ package sched
 import (
 	"fmt"
 	"runtime"
+	"strings"
 	"sync"
 	"sync/atomic"
 	"time"
@@ -52,6 +53,7 @@ type stressStream struct {
 	foreign   atomic.Int64
 	lostBad   atomic.Int64
 	callbacks atomic.Int64
+	rawTags   sync.Map // token -> *tag for records pushed with Push(type, raw)
 	reMu      sync.Mutex
 	reTags    []*tag // records pushed from inside callbacks
 }
@@ -69,6 +71,14 @@ func (s *stressStream) ReassemblyComplete(msgs []*auparse.AuditMessage) {
 			continue
 		}
 		t, ok := m.Payload.(*tag)
+		if !ok {
+			// pushed with Push(type, raw bytes): the library built the message; find the tag by the token in its text
+			if i := strings.Index(m.RawData, "tagkey="); i >= 0 {
+				if v, found := s.rawTags.Load(strings.TrimSpace(m.RawData[i+7:])); found {
+					t, ok = v.(*tag), true
+				}
+			}
+		}
 		if !ok {
 			s.foreign.Add(1)
 			continue
@@ -133,6 +143,7 @@ func Stress(rng *mon.Rand, opsPerG int) *StressResult {
 		seeds[g] = rng.Uint64()
 	}
 	var wg sync.WaitGroup
+	var rawErrs atomic.Int64
 	closeOK := make([]bool, closers)
 	stop := make(chan struct{})
 	for g := 0; g < G; g++ {
@@ -141,6 +152,7 @@ func Stress(rng *mon.Rand, opsPerG int) *StressResult {
 			defer wg.Done()
 			lr := mon.NewRand(int64(seeds[g]))
 			mine := make([]*tag, 0, opsPerG)
+			var rawBuf [96]byte
 			for i := 0; i < opsPerG; i++ {
 				seq := uint32(4294967200 + i/4 + lr.Intn(6)) // a window that rolls over
 				t := &tag{seq: seq, id: int64(g)<<32 | int64(i)}
@@ -155,7 +167,20 @@ func Stress(rng *mon.Rand, opsPerG int) *StressResult {
 				if lr.Chance(1, 50) {
 					r.Maintain()
 				}
-				r.PushMessage(m)
+				if lr.Chance(1, 8) {
+					// Push(type, raw): parsed and copied by the library; the caller's buffer is re-used at once
+					key := fmt.Sprintf("%d-%d", g, i)
+					st.rawTags.Store(key, t)
+					n := copy(rawBuf[:], fmt.Sprintf("audit(1700000000.000:%d): tagkey=%s", seq, key))
+					if err := r.Push(typ, rawBuf[:n]); err != nil {
+						rawErrs.Add(1)
+					}
+					for j := range rawBuf[:n] {
+						rawBuf[j] = 'Z'
+					}
+				} else {
+					r.PushMessage(m)
+				}
 				if closeInvoked.Load() == 0 {
 					t.before = true
 				}
@@ -208,6 +233,9 @@ func Stress(rng *mon.Rand, opsPerG int) *StressResult {
 	}
 	if ok != 1 {
 		add("close-count", "%d of %d concurrent Close calls returned nil", ok, closers)
+	}
+	if n := rawErrs.Load(); n > 0 {
+		add("push-raw-error", "%d Push(type, raw) calls with well-formed text returned an error", n)
 	}
 	for g := range tags {
 		for _, t := range tags[g] {
